@@ -30,6 +30,26 @@ for _p in ["C01", "C03", "C04", "C05", "C06", "C07", "C08", "C09", "C11", "C12",
     NOT_APPLICABLE.setdefault(_p, _NA_UNSTARTED)
 
 CHECKS = {
+    "C01": {
+        "text": "Bounded model checking of the real trivia readers (both syntaxes' comment/whitespace skippers): for every token "
+                "buffer inside the bound they terminate (unwinding assertions), do not panic, keep the cursor inside the buffer "
+                "and report errors with spans inside the source. A non-terminating input is replayed natively under a watchdog.",
+        "design_ref": "DESIGN.md section 4, C01",
+        "note": "Kernel obligations only: whole-stylesheet totality is far outside a bit-precise engine. Trusted: Kani/CBMC, the "
+                "RandomState and fmt::format stubs. Bounds: 3-6 tokens; the statement/expression/selector parsers, evaluator and "
+                "serializer are outside the claim.",
+        "technique": "bounded model checking (Kani/CBMC) of parser primitives with unwinding assertions; native hang replay",
+    },
+    "C08": {
+        "text": "Bounded model checking over all unit pairs/triples: the real comparable() predicate coincides with the conversion "
+                "table (dumped from the real HashMap on every run) and with the CSS classes; factors are reflexive, invertible and "
+                "transitive to 4 ulp and anchored to the 13 CSS ratios; the evaluator's + and - kernels reject inconvertible "
+                "units, convert the right operand into the left unit and keep the documented result unit.",
+        "design_ref": "DESIGN.md section 4, C08",
+        "note": "Trusted: Kani/CBMC, the convert contract stub (table lookup replaced by the dumped table), the fixed numbering of "
+                "units. Outside: unit multiplication/cancellation, compound and unknown units, math.* functions.",
+        "technique": "bounded model checking (Kani/CBMC) over symbolic unit indices + table dump of the real build",
+    },
     "C17": {
         "text": "Bounded model checking of the real MediaQuery::merge: for every pair of queries inside the bound and every "
                 "media environment, Empty implies the intersection is empty and Success(q) implies q is satisfied by exactly "
